@@ -125,6 +125,33 @@ CHECKS = {
                       "node IDs read back exactly (across every DER length-form boundary), verification accepts exactly the encoded IDs.",
         "level_note": _TRUST,
     },
+    "C04": {
+        "pkgs": ["./pkg/workceptor"],
+        "bounds": "one status rewrite (UpdateBasicStatus / UpdateFullStatus) of an arbitrary old record with a crash before each of its file-system "
+                  "operations (crash index 1..8); one acknowledged command unit and one acknowledged remote unit followed by 1-2 updates with a crash "
+                  "at any operation, then the real restart scan; restart on a record in each of the 5 states; status query for a unit only on disk",
+        "no_native": ["Verif_C04_rewrite_crash_index", "Verif_C04_acked_unit_survives", "Verif_C04_remote_binding_survives"],
+        "assumptions": ["file-system model: every state-changing operation (create, truncate, write, mkdir, remove) is atomic (process kill, not power loss)",
+                        "unit IDs fixed by the harness (randomness stubbed)"],
+        "outside": ["the detached runner process and real process signalling", "fsync / power loss", "kernel-level atomicity of a single write",
+                    "kubernetes and python units", "repeated crash/restart cycles beyond one"],
+        "level_text": "Bounded symbolic execution of the real status-file code (Save/Load/UpdateFullStatus/lockStatusFile), AllocateUnit / "
+                      "AllocateRemoteUnit, scanForUnit/findUnit and the Restart methods over a file-system model with a crash injected before "
+                      "every state-changing operation: after restart an acknowledged unit is listed with its type and remote binding, finished "
+                      "units keep state and size, never-started units are failed, and status queries never block.",
+        "level_note": _TRUST,
+    },
+    "C14": {
+        "pkgs": ["./pkg/workceptor"],
+        "bounds": "2 independent writers + 1 reader on one status file, and 2 daemon goroutines sharing one unit + the runner process, every "
+                  "file-system operation a scheduling point, 2 pre-emptions; arbitrary numeric increments",
+        "schedule_harnesses": ["Verif_C14_rmw_serialisable", "Verif_C14_shared_unit"],
+        "assumptions": ["lockedfile model: exclusive advisory lock per open file description, blocking, released on close"],
+        "outside": ["real flock semantics on network file systems", "more than 3 concurrent actors", "schedules needing more than 2 pre-emptions"],
+        "level_text": "Bounded symbolic execution with schedule exploration of the real UpdateFullStatus/UpdateBasicStatus/Load/Save on the "
+                      "file-system model: the final record is that of some serial order (no lost update, no wiped field) and a reader sees a whole record.",
+        "level_note": _TRUST,
+    },
     "C10": {
         "pkgs": ["./pkg/netceptor"],
         "bounds": "step lemma for all 256 budgets, arbitrary routing table (no route / via B / via C / via unconnected X) for source and "
